@@ -527,6 +527,8 @@ static EVHASH: Mutex<Vec<(u64, u8, u8)>> = Mutex::new(Vec::new());
 static MAX_RETRIES: AtomicU64 = AtomicU64::new(0);
 static BACKOFFS: AtomicU64 = AtomicU64::new(0);
 static SYNC_RUNS: AtomicU64 = AtomicU64::new(0);
+/// wall-clock watchdog per run (inconclusive when it fires); interpreters need far more
+static WATCHDOG_SECS: AtomicU64 = AtomicU64::new(30);
 
 fn point_code(p: Point) -> u8 {
     match p {
@@ -680,7 +682,7 @@ fn run_program(prog: &Prog, mode: &str, strategy: Strategy, sseed: u64, stats: &
                 break;
             }
         }
-        if t0.elapsed() > Duration::from_secs(30) {
+        if t0.elapsed() > Duration::from_secs(WATCHDOG_SECS.load(Ordering::Relaxed)) {
             out.hung = true;
             break;
         }
@@ -915,6 +917,10 @@ fn mode_programs(args: &Args, mode: &str) {
         println!("{}", report.to_json().dump());
     } else {
         report.write(&out_path);
+    }
+    if report.notes.iter().any(|n| n.starts_with("shard stopped early")) {
+        // worker threads of the abandoned run may still be alive
+        std::process::exit(0);
     }
 }
 
@@ -1478,6 +1484,7 @@ fn mode_iter(args: &Args) {
 fn main() {
     install_panic_hook();
     let args = Args::parse();
+    WATCHDOG_SECS.store(args.u64("watchdog-secs", 30), Ordering::Relaxed);
     if let Some(path) = args.get("replay") {
         let text = std::fs::read_to_string(path).expect("cannot read replay file");
         let prop = args.str("prop", "all");
